@@ -173,7 +173,7 @@ LeafRaw(n, parentId, fname, args) ==
   IF n = "String" THEN Str(parentId \o "." \o fname \o ArgStr(args))
   ELSE IF n = "ID" THEN Str(parentId \o "." \o fname)
   ELSE IF n = "Int" THEN Int(7)
-  ELSE IF n = "Float" THEN Int(2)             \* a Float field may resolve to an integer number
+  ELSE IF n = "Float" THEN [t |-> "F", v |-> 2]   \* the float 2.0 (TLC has no reals: tag F, integral payload)
   ELSE IF n = "Boolean" THEN Bool(TRUE)
   ELSE IF KindOf(n) = "ENUM" THEN Enum(Types[n].values[1])
   ELSE Str("x")
